@@ -17,7 +17,7 @@ MONTHS = {m: i + 1 for i, m in enumerate(['Jan', 'Feb', 'Mar', 'Apr', 'May', 'Ju
 
 
 class Block:
-    __slots__ = ('cols', 'rows', 'torn_row', 'header_torn', 'complete', 'src', 'perf')
+    __slots__ = ('cols', 'rows', 'torn_row', 'header_torn', 'complete', 'src', 'perf', 'torn_full')
 
     def __init__(self):
         self.cols = None            # list of printed column names
@@ -27,6 +27,7 @@ class Block:
         self.complete = False       # 'Loop time of' line seen
         self.src = None
         self.perf = None            # 'new' / 'old' / None: a complete timing breakdown follows
+        self.torn_full = False      # False: unknown; None: the line being written was not a data row; list: its complete tokens
 
     def steps(self):
         """Step values of the complete rows (ints), or None when there is no Step column."""
